@@ -553,7 +553,7 @@ Var& Var::extend(const Var& v)
 		_type = OBJ;
 	}
 	
-	if (_type == OBJ)
+	if (_type == OBJ && v._type == OBJ) // v._o is only meaningful for an object
 	{
 		foreach2 (String& k, Var & x, *v._o)
 		{
